@@ -32,7 +32,7 @@ RULE = ("1-4 destinations (one always-healthy reference at a random position, th
         "with a message of its own, a FileDestination whose json_default logs a diagnostic, optionally a failing one in between) run as a one-thread "
         "schedule: no self-deadlock, every destination offered every outer and nested message exactly once, reports == failed deliveries. part 'interrupted_report': 2-3 destinations fail on one message and the delivery of the first report "
         "is cut short by a non-Exception from another destination: the healthy destination (registered first) is still offered one report per failure. A quarter of the random programs run inside an action bound to a logger object of its "
-        "own, half of the hand-overs happen inside an open action. non-trivial = >=2 faulty destinations or a mask that hits a report; distinct by (program shape, masks)")
+        "own, half of the hand-overs happen inside an open action. Destination exceptions include ones whose text is the empty string (raised without arguments). part 'deferred': a destination schedules follow-up work for what it is offered, reports included (loop.call_soon, a new asyncio task, a saved copy_context()), which later logs a message of its own; a failure on that message is reported like any other. non-trivial = >=2 faulty destinations or a mask that hits a report; distinct by (program shape, masks)")
 ASSUMPTIONS = ["destinations raise Exception subclasses (part 'interrupted_report' alone lets one raise a non-Exception, and only while it is offered a failure report)", "under concurrency only per-destination sets, per-thread order and report counts are judged "
                "(destinations may legitimately see different total orders)"]
 EXHAUSTIVE_NOTE = "part 'enum' enumerates every failure mask over the first K calls of D destinations"
@@ -58,6 +58,8 @@ def plan(tier, seed):
         specs.append({"part": "reentrant", "seed": seed, "i": j})
     for j in range(100 if tier == "quick" else 1000):
         specs.append({"part": "interrupted_report", "seed": seed, "i": j})
+    for j in range(300 if tier == "quick" else 3000):
+        specs.append({"part": "deferred", "seed": seed, "i": j})
     return specs
 
 
@@ -332,6 +334,111 @@ def part_interrupted_report(spec, res):
         res["violations"].append({"msg": problems[0], "mech": None, "detail": {"label": "interrupted_report", "problems": problems[:4]}})
 
 
+def part_deferred(spec, res):
+    """A destination that hands follow-up work to later: for what it is offered (ordinary messages and failure reports alike) it
+    schedules a callback - loop.call_soon, a new asyncio task, or a saved contextvars.copy_context() - which later logs a message
+    of its own. Whatever execution context that follow-up work inherited, a destination failing on ITS message is reported like any
+    other failure, and the healthy destination is offered everything once."""
+    import asyncio
+    import contextvars
+    rng = random.Random("%s:C08:df:%d" % (spec["seed"], spec["i"]))
+    mode = rng.choice(["copy_context", "call_soon", "create_task"])
+    nmsg = rng.randint(2, 8)
+    got, failed, pending = [], [], []
+    counter = [0]
+    follow_budget = [30]
+    loop_box = [None]
+    desc, pred = faults.gen_mask(rng, nmsg * 4)
+    bad_calls = [0]
+
+    def ref(m):
+        got.append(dict(m))
+
+    def bad(m):
+        i = bad_calls[0]
+        bad_calls[0] += 1
+        if pred(i):
+            failed.append(dict(m))
+            raise excs.DestFault("deferred part, call %d" % i)
+
+    def follow(about):
+        counter[0] += 1
+        log_message(message_type="df:shipped", about=about, k=counter[0])
+
+    async def follow_coro(about):
+        follow(about)
+
+    def shipper(m):
+        if m.get("message_type") == "df:shipped" or follow_budget[0] <= 0:
+            return
+        follow_budget[0] -= 1
+        about = "report" if is_report(m) else m.get("n", "action")
+        if mode == "copy_context":
+            pending.append((contextvars.copy_context(), about))
+        elif mode == "call_soon":
+            loop_box[0].call_soon(follow, about)
+        else:
+            loop_box[0].create_task(follow_coro(about))
+
+    def drain():
+        while pending:
+            ctx, about = pending.pop(0)
+            ctx.run(follow, about)
+
+    dests = [ref, bad, shipper]
+    rng.shuffle(dests)
+    problems = []
+    add_destinations(*dests)
+    try:
+        if mode == "copy_context":
+            with start_action(action_type="df:act"):
+                for n in range(1, nmsg + 1):
+                    log_message(message_type="df:m", n=n)
+                    drain()
+            drain()
+        else:
+            async def main():
+                loop_box[0] = asyncio.get_running_loop()
+                with start_action(action_type="df:act"):
+                    for n in range(1, nmsg + 1):
+                        log_message(message_type="df:m", n=n)
+                        await asyncio.sleep(0)
+                for _ in range(200):
+                    before = len(got)
+                    await asyncio.sleep(0)
+                    await asyncio.sleep(0)
+                    if len(got) == before:
+                        break
+            asyncio.run(main())
+    except BaseException as e:
+        problems.append("logging raised %r" % (e,))
+    finally:
+        for d in dests:
+            remove_destination(d)
+    reps = [m for m in got if is_report(m)]
+    failed_plain = [m for m in failed if not is_report(m)]
+    if len(reps) != len(failed_plain):
+        kinds = sorted(set(str(m.get("message_type") or m.get("action_type")) for m in failed_plain))
+        problems.append("a destination failed on %d messages that are not failure reports (%s; follow-up work scheduled by a destination via %s "
+                        "logged part of them), but %d eliot:destination_failure reports reached the healthy destination" % (
+                            len(failed_plain), ", ".join(kinds), mode, len(reps)))
+    if [m.get("n") for m in got if m.get("message_type") == "df:m"] != list(range(1, nmsg + 1)):
+        problems.append("the healthy destination did not receive the program's messages once each, in order")
+    ks = [m.get("k") for m in got if m.get("message_type") == "df:shipped"]
+    if ks != list(range(1, counter[0] + 1)):
+        problems.append("the healthy destination did not receive the follow-up messages once each, in order: %r of %d" % (ks[:10], counter[0]))
+    res["evals"] += 1
+    c = res["counters"]
+    c["deferred_runs"] = c.get("deferred_runs", 0) + 1
+    c["failures_on_messages_logged_by_deferred_work"] = c.get("failures_on_messages_logged_by_deferred_work", 0) + sum(
+        1 for m in failed_plain if m.get("message_type") == "df:shipped")
+    c["deferred_work_scheduled_while_a_report_was_delivered"] = c.get("deferred_work_scheduled_while_a_report_was_delivered", 0) + sum(
+        1 for m in got if m.get("message_type") == "df:shipped" and m.get("about") == "report")
+    res["nontrivial"].append(h(["df", mode, nmsg, desc, [d.__name__ for d in dests]]))
+    if problems:
+        res["violations"].append({"msg": problems[0], "mech": None, "detail": {"label": "deferred", "mode": mode, "mask": desc, "problems": problems[:6]}})
+
+
 class Payload(object):
     def __init__(self, v):
         self.v = v
@@ -566,6 +673,9 @@ def run_case(spec):
     if spec["part"] == "interrupted_report":
         part_interrupted_report(spec, res)
         return res
+    if spec["part"] == "deferred":
+        part_deferred(spec, res)
+        return res
     if spec["part"] == "random":
         for i in range(spec["lo"], spec["hi"]):
             rng = random.Random("%s:C08:%d" % (spec["seed"], i))
@@ -641,4 +751,6 @@ def finalize(agg, tier):
         return "too few failed deliveries / failures on reports observed"
     if c.get("prebuffered_runs", 0) < 100 or c.get("thread_schedules_run", 0) < 500:
         return "too few prebuffered runs / thread schedules"
+    if c.get("failures_on_messages_logged_by_deferred_work", 0) < 20 or c.get("deferred_work_scheduled_while_a_report_was_delivered", 0) < 20:
+        return "part 'deferred' rarely reached a failure on a message logged by work scheduled while a report was being delivered"
     return None
